@@ -638,6 +638,6 @@ func init() {
 			NotDecided:  []string{"which routes match (C01)", "exact bytes of the Allow header"},
 			Assumptions: []string{"option flags are fixed after registration (C13-GATE)"},
 		},
-		Rules: []ruleFn{{"C06-STAGES", ruleC06Stages}, {"C06-ALLOW", ruleC06Allow}, {"C06-DISPATCH", ruleC06Dispatch}, {"C04-SEQ", ruleC04Seq}},
+		Rules: []ruleFn{{"C06-STAGES", ruleC06Stages}, {"C06-ALLOW", ruleC06Allow}, {"C06-DISPATCH", ruleC06Dispatch}, {"C04-SEQ", ruleC04Seq}, {"C07-KEY", ruleCacheKey("C07-KEY")}, {"C07-NODE", ruleCacheStruct("C07")}},
 	})
 }
